@@ -43,6 +43,8 @@ inductive It where
   | stripRun (prev : TEv) (src : It)     -- StripDirective._generate with its one-event look-behind
   | attrsNew (spec : AttrsSpec) (src : It)   -- AttrsDirective._generate, not started
   | macroNew (m : Macro) (arg : Option Val)   -- the generator a `py:def` function returned, not started
+  | genfNew (x : Str) (src body : Expr)   -- `_ensure(result)` over the generator object of a generator function,
+                                         -- not started: the first `next()` evaluates `src` and calls `iter()`
   | genexp (x : Str) (items : List Atom) (body : Expr)
                                          -- `_ensure(result)` over the generator object of `(body for x in …)`:
                                          -- `body` runs at each `next()`, in the render's context as it is then
@@ -322,6 +324,21 @@ def pull (h : Heap) : Nat → St → It → PullRes
           (match remaining h st.ph src with
            | none => ⟨st, .dead, .err .unmodelled⟩
            | some body => pull h fuel st (.forNextG var x items gbody [] body rest))
+        | .genf x gsrc gbody =>
+          -- the generator of a generator function: its `for x in src` starts at the first `next()`, i.e. here,
+          -- after `stream = list(stream)`
+          (match remaining h st.ph src with
+           | none => ⟨st, .dead, .err .unmodelled⟩
+           | some body =>
+             match eval st.ctx.frames gsrc with
+             | .error er => ⟨st, .dead, .err er⟩
+             | .ok (.atom a) =>
+               (match iterItems (.atom a) with
+                | none => ⟨st, .dead, .err .typeError⟩
+                | some items => pull h fuel st (.forNextG var x items gbody [] body rest))
+             | .ok (.list xs) => pull h fuel st (.forNextG var x xs gbody [] body rest)
+             | .ok (.opaque _) | .ok (.macro _) | .ok (.genfn _ _ _ _) | .ok (.lam _ _) => ⟨st, .dead, .err .typeError⟩
+             | .ok _ => ⟨st, .dead, .err .unmodelled⟩)
         | .gen0 _ | .gen1 _ _ => ⟨st, .dead, .err .unmodelled⟩
         | _ =>
         match iterItems v with
@@ -365,6 +382,16 @@ def pull (h : Heap) : Nat → St → It → PullRes
       | .err er => ⟨r.st, .dead, .err er⟩
       | .done =>
         pull h fuel { r.st with ctx := r.st.ctx.pop } (.forNextG var x xs gbody (r.st.ctx.frames.headD scope) body rest)
+    | .genfNew x gsrc gbody =>
+      match eval st.ctx.frames gsrc with
+      | .error er => ⟨st, .dead, .err er⟩
+      | .ok (.atom a) =>
+        (match iterItems (.atom a) with
+         | none => ⟨st, .dead, .err .typeError⟩
+         | some items => pull h fuel st (.genexp x items gbody))
+      | .ok (.list xs) => pull h fuel st (.genexp x xs gbody)
+      | .ok (.opaque _) | .ok (.macro _) | .ok (.genfn _ _ _ _) | .ok (.lam _ _) => ⟨st, .dead, .err .typeError⟩
+      | .ok _ => ⟨st, .dead, .err .unmodelled⟩
     | .genexp _ [] _ => ⟨st, .dead, .done⟩
     | .genexp x (a :: as) gbody =>
       -- `_ensure`: `next(stream)`, then `TEXT, str(item)` for an item that is no event tuple
@@ -682,6 +709,10 @@ def flat (v : Variant) : Nat → Heap → St → Src → List It → FlatRes
       match t with
       | .out e => ⟨h1, st1, src1, stack1, .ev e⟩
       | .other => ⟨h1, st1, src1, stack1, .err .unmodelled⟩
+      | .execGen name x gsrc gbody =>
+        -- `_exec_suite`: `exec(code, globals, ctxt)` — the `def` statement stores the function with `ctxt[name] = …`
+        -- (`frames[0]`); nothing is yielded
+        flat v fuel h1 { st1 with ctx := st1.ctx.setTop name (.genfn name x gsrc gbody) } src1 stack1
       | .incl ti fb => ⟨h1, st1, src1, stack1, .incl ti fb⟩
       | .startI tag attrs =>
         match evalAttrs h1 st1.ph st1.ctx.frames attrs with
@@ -699,6 +730,9 @@ def flat (v : Variant) : Nat → Heap → St → Src → List It → FlatRes
         | .ok (.gen0 m) => flat v fuel h1 st1 src1 (.macroNew m none :: stack1)
         | .ok (.gen1 m a) => flat v fuel h1 st1 src1 (.macroNew m (some a) :: stack1)
         | .ok (.genx x items gbody) => flat v fuel h1 st1 src1 (.genexp x items gbody :: stack1)
+        | .ok (.genf x gsrc gbody) => flat v fuel h1 st1 src1 (.genfNew x gsrc gbody :: stack1)
+        | .ok (.genfn _ _ _ _) => ⟨h1, st1, src1, stack1, .err .unmodelled⟩     -- `str(function)` shows an address
+        | .ok (.lam _ _) => ⟨h1, st1, src1, stack1, .err .unmodelled⟩
       | .sub d b =>
         match readDirs h1 st1.ph d with
         | none => ⟨h1, st1, src1, stack1, .err .unmodelled⟩
